@@ -19,7 +19,7 @@ LAYER = {1: "part-map: what a reader of the document in memory sees after this o
          5: "abstraction: duplicate keys in the abstracted state",
          6: "reads-neutral: a part set in memory has no current time stamp, the next get_part replaces it by the file's content",
          7: "rdf-replaced: save replaced a manifest.rdf held in memory and listed in the manifest by the default one"}
-WEIGHTS = dict(get=3, touch=4, edit=5, set=2, setxml=3, setnew=2, **{"del": 2}, addfile=2, save=7, saveself=2, reopen=6, clone=2, shrink=2, grow=1, merge=1, delpic=1)
+WEIGHTS = dict(get=3, touch=4, edit=5, set=2, setxml=3, setnew=2, **{"del": 2}, addfile=2, save=7, saveself=2, reopen=6, clone=2, shrink=2, grow=1, merge=1, delpic=1, editobj=2, addobject=1)
 
 
 def make_histories(tier, rng):
@@ -76,6 +76,14 @@ def make_histories(tier, rng):
         M = dict(op="merge", source=src)
         hs.append([dict(st), dict(M), dict(SVB), dict(op="delpic", r=3), dict(M), dict(SVB), dict(op="reopen", r=1), dict(op="get", r=5)])
         hs.append([dict(st), dict(A), dict(op="delpic", r=4), dict(M), dict(SVB), dict(op="reopen", r=1), dict(op="touch", name="styles.xml")])
+    # XML parts of embedded objects (class chosen by base name): is the edit saved, in every packaging; set_part after a read
+    objs = [s for s in S if s.endswith("chart.odt")]
+    for st, gen in [(dict(op="open", src=s, buf=b), False) for s in objs for b in (False, True)] + [(dict(st0), True) for st0 in starts[:2]]:
+        pre = [dict(op="addobject", r=1)] if gen else []
+        for pk, tg in (("zip", "buf"), ("folder", "path")):
+            hs.append([dict(st)] + pre + [dict(op="editobj", r=rng.randrange(1 << 30)), dict(op="save", packaging=pk, target=tg, pretty=False), dict(op="reopen", r=1),
+                       dict(op="editobj", r=rng.randrange(1 << 30)), dict(op="editobj", r=rng.randrange(1 << 30)), dict(op="clone"), dict(op="save", packaging="zip", target="buf", pretty=False),
+                       dict(op="reopen", r=2), dict(op="touch", r=rng.randrange(1 << 30))])
     # F35: a package without manifest.rdf, opened by path / by buffer; the user provides one and lists it; save
     import zipfile
     nordf = [s for s in small if "manifest.rdf" not in zipfile.ZipFile(s).namelist()][:2]
